@@ -74,6 +74,8 @@ func genFactors(r *hx.R) []sdkmath.LegacyDec {
 			v := r.Range(-1_000_000_000, 1_000_000_000_000)
 			if i == n-1 {
 				v = r.Range(1, 1_000_000_000_000_000)
+			} else if r.Chance(1, 3) {
+				v = 0 // a sparse polynomial: the term of this degree is absent, the others keep their exponents
 			}
 			fs[i] = sdkmath.LegacyNewDecFromBigIntWithPrec(new(big.Int).Mul(big.NewInt(v), big.NewInt(r.Range(1, 1_000_000_000))), 18)
 		}
